@@ -25,6 +25,7 @@ type c11In struct {
 	ReqID    string       `json:"req_id"`
 	LogLevel string       `json:"log_level"`
 	Script   StreamScript `json:"script"` // init logs / init error / header / turns
+	OCol     string       `json:"ocol,omitempty"` // output column a DYNAMIC method's init handler chooses (default v)
 	Col      string       `json:"col"`    // exchange input column: i64 | i32 | bad (field named y)
 	Ins      [][]int64    `json:"ins"`    // exchange inputs (one batch each); producers: one tick per entry
 	L        int          `json:"L"`      // producer batch limit, 0 = unlimited
@@ -32,6 +33,37 @@ type c11In struct {
 	CacheMax int          `json:"cache_max"` // -1 = default (4096), 0 = disabled, n = size
 	Route    []int        `json:"route"`     // instance id of request k is Route[k % len]
 	Compress string       `json:"compress"`  // "" | gzip | zstd | x-zstd (private negotiation header)
+}
+
+// c11Hist is one case: several stream calls opened on the SAME HttpServer
+// instances and advanced by one client in the order given by Sched (entry j =
+// index of the call that takes the next step: its /init, then one continuation
+// or one exchange input per step); calls not finished when Sched ends are run
+// to completion in order. L / CapEvery / CacheMax are server settings and are
+// taken from Calls[0]. Each call is compared with its own pipe run.
+type c11Hist struct {
+	Calls []c11In `json:"calls"`
+	Sched []int   `json:"sched,omitempty"`
+}
+
+// output columns a dynamic init handler can choose; x/2 selects one. Two of
+// them serialize to the same number of bytes, the others to different lengths.
+var c11OCols = []string{"v", "alpha", "bravo", "c", "delta_longer_name"}
+
+func c11OColIdx(name string) int {
+	for i, c := range c11OCols {
+		if c == name {
+			return i
+		}
+	}
+	return 0
+}
+
+func c11OutSchema(idx int) *arrow.Schema {
+	if idx <= 0 || idx >= len(c11OCols) {
+		return outSchemaV
+	}
+	return arrow.NewSchema([]arrow.Field{{Name: c11OCols[idx], Type: arrow.PrimitiveTypes.Int64}}, nil)
 }
 
 // ExchOnlyState is the scripted state of a dynamic EXCHANGE call: it must not
@@ -60,7 +92,7 @@ func newC11Server(sf *Surface) *vgirpc.Server {
 				return nil, c.Init.Err.raise()
 			}
 			base := ScriptState{SID: sf.ID, Turns: c.Turns}
-			r := &vgirpc.StreamResult{OutputSchema: outSchemaV}
+			r := &vgirpc.StreamResult{OutputSchema: c11OutSchema(int(p.X / 2))}
 			if p.X%2 == 0 {
 				r.State = &base
 			} else {
@@ -76,15 +108,21 @@ func newC11Server(sf *Surface) *vgirpc.Server {
 }
 
 func c11Method(kind string) (method string, x int64, producer bool) {
-	switch kind {
+	return c11MethodOf(c11In{Kind: kind})
+}
+
+// c11MethodOf: the dynamic method takes its mode from the parity of x and its
+// output column from x/2.
+func c11MethodOf(in c11In) (method string, x int64, producer bool) {
+	switch in.Kind {
 	case "prod", "prod_h":
-		return kind, 2, true
+		return in.Kind, 2, true
 	case "exch", "exch_h":
-		return kind, 3, false
+		return in.Kind, 3, false
 	case "dyn_p":
-		return "dyn", 2, true
+		return "dyn", int64(2 * c11OColIdx(in.OCol)), true
 	}
-	return "dyn", 3, false
+	return "dyn", int64(2*c11OColIdx(in.OCol) + 1), false
 }
 
 var (
@@ -166,49 +204,72 @@ type c11Resp struct {
 	Inst    int       `json:"inst"`
 }
 
-// c11HTTP is the minimal client loop.
-func c11HTTP(in c11In, tags *[]string) []c11Resp {
-	method, x, producer := c11Method(in.Kind)
+// c11Client is the minimal client of ONE call: POST /m/init, then POST
+// /m/exchange echoing the latest cursor and the call token of /init.
+type c11Client struct {
+	in       c11In
+	method   string
+	x        int64
+	producer bool
+	k        int
+	cur      []byte
+	call     []byte
+	started  bool
+	done     bool
+	next     int
+	out      []c11Resp
+}
+
+// c11HTTPHist drives all calls of a history against shared instances.
+func c11HTTPHist(h c11Hist, tags *[]string) [][]c11Resp {
 	key := []byte("c11-shared-token-key-0123456789abcdef")
 	ninst := 1
-	for _, r := range in.Route {
-		if r+1 > ninst {
-			ninst = r + 1
+	allProd := true
+	for _, in := range h.Calls {
+		for _, r := range in.Route {
+			if r+1 > ninst {
+				ninst = r + 1
+			}
 		}
+		_, _, p := c11MethodOf(in)
+		allProd = allProd && p
 	}
+	cfg := h.Calls[0]
 	sf := newSurface()
 	defer sf.Close()
-	sf.PushStream(in.Script)
 	var hs []*vgirpc.HttpServer
 	for i := 0; i < ninst; i++ {
-		h, err := vgirpc.NewHttpServerWithKey(newC11Server(sf), key)
+		hsrv, err := vgirpc.NewHttpServerWithKey(newC11Server(sf), key)
 		if err != nil {
 			panic(err)
 		}
-		h.SetProducerBatchLimit(in.L)
-		if in.CapEvery && producer {
-			h.SetMaxResponseBytes(1)
+		hsrv.SetProducerBatchLimit(cfg.L)
+		if cfg.CapEvery && allProd {
+			hsrv.SetMaxResponseBytes(1)
 		}
-		if in.CacheMax >= 0 {
-			h.SetCallStateCacheEntries(in.CacheMax)
+		if cfg.CacheMax >= 0 {
+			hsrv.SetCallStateCacheEntries(cfg.CacheMax)
 		}
-		hs = append(hs, h)
+		hs = append(hs, hsrv)
 	}
-	hdr := map[string]string{}
-	switch in.Compress {
-	case "gzip", "zstd":
-		hdr["Accept-Encoding"] = in.Compress
-	case "x-zstd":
-		hdr["X-VGI-Accept-Encoding"] = "zstd"
+	cls := make([]*c11Client, len(h.Calls))
+	for i, in := range h.Calls {
+		m, x, p := c11MethodOf(in)
+		cls[i] = &c11Client{in: in, method: m, x: x, producer: p}
 	}
-	var out []c11Resp
-	k := 0
-	do := func(path string, body []byte) (c11Resp, []byte, []byte) {
+	do := func(c *c11Client, path string, body []byte) {
+		hdr := map[string]string{}
+		switch c.in.Compress {
+		case "gzip", "zstd":
+			hdr["Accept-Encoding"] = c.in.Compress
+		case "x-zstd":
+			hdr["X-VGI-Accept-Encoding"] = "zstd"
+		}
 		inst := 0
-		if len(in.Route) > 0 {
-			inst = in.Route[k%len(in.Route)]
+		if len(c.in.Route) > 0 {
+			inst = c.in.Route[c.k%len(c.in.Route)]
 		}
-		k++
+		c.k++
 		resp := DoHTTP(hs[inst], "POST", path, body, hdr)
 		enc := resp.Header.Get("Content-Encoding")
 		if enc == "" {
@@ -223,38 +284,63 @@ func c11HTTP(in c11In, tags *[]string) []c11Resp {
 			*tags = append(*tags, "escaped-panic")
 		}
 		cur, call := vgirpc.FindStreamTokens(data)
-		r := c11Resp{Status: resp.Status, ErrHdr: resp.Header.Get("X-VGI-RPC-Error") == "true",
-			Streams: ParseStreams(data), Tok: cur != nil, Enc: enc, Inst: inst}
-		out = append(out, r)
-		return r, cur, call
-	}
-	_, cur, call := do("/"+method+"/init", ReqBytes(PIntBatch(x), StdMeta(method, in.ReqID, in.LogLevel)))
-	tokMeta := func() [][2]string {
-		m := [][2]string{{vgirpc.MetaStreamState, string(cur)}}
-		if call != nil {
-			m = append(m, [2]string{vgirpc.MetaCallState, string(call)})
+		c.out = append(c.out, c11Resp{Status: resp.Status, ErrHdr: resp.Header.Get("X-VGI-RPC-Error") == "true",
+			Streams: ParseStreams(data), Tok: cur != nil, Enc: enc, Inst: inst})
+		c.cur = cur
+		if !c.started {
+			c.call = call
 		}
-		return m
 	}
-	schema := c11InputSchema(in, producer)
-	if producer {
-		// a producer is continued for as long as the server hands back a cursor
-		for guard := 0; cur != nil && guard < 10000; guard++ {
-			_, cur, _ = do("/"+method+"/exchange", c11InputStream(schema, [][]int64{nil}, tokMeta()))
+	step := func(c *c11Client) {
+		if c.done {
+			return
 		}
-	} else {
-		for _, vals := range in.Ins {
-			if cur == nil {
-				break
+		if !c.started {
+			sf.PushStream(c.in.Script) // popped by this call's init handler
+			do(c, "/"+c.method+"/init", ReqBytes(PIntBatch(c.x), StdMeta(c.method, c.in.ReqID, c.in.LogLevel)))
+			c.started = true
+			if c.cur == nil {
+				c.done = true
 			}
-			_, cur, _ = do("/"+method+"/exchange", c11InputStream(schema, [][]int64{vals}, tokMeta()))
+			return
 		}
+		if c.cur == nil || (!c.producer && c.next >= len(c.in.Ins)) || c.k > 10000 {
+			c.done = true
+			return
+		}
+		meta := [][2]string{{vgirpc.MetaStreamState, string(c.cur)}}
+		if c.call != nil {
+			meta = append(meta, [2]string{vgirpc.MetaCallState, string(c.call)})
+		}
+		var vals []int64
+		if !c.producer {
+			vals = c.in.Ins[c.next]
+			c.next++
+		}
+		do(c, "/"+c.method+"/exchange", c11InputStream(c11InputSchema(c.in, c.producer), [][]int64{vals}, meta))
+		if c.cur == nil {
+			c.done = true
+		}
+	}
+	for _, j := range h.Sched {
+		if j >= 0 && j < len(cls) {
+			step(cls[j])
+		}
+	}
+	for _, c := range cls {
+		for !c.done {
+			step(c)
+		}
+	}
+	out := make([][]c11Resp, len(cls))
+	for i, c := range cls {
+		out[i] = c.out
 	}
 	return out
 }
 
 func c11Pipe(in c11In, tags *[]string) []RStream {
-	method, x, producer := c11Method(in.Kind)
+	method, x, producer := c11MethodOf(in)
 	sf := newSurface()
 	defer sf.Close()
 	sf.PushStream(in.Script)
@@ -317,63 +403,114 @@ func c11CoqInput(in c11In) string {
 	if cmax < 0 {
 		cmax = 4096
 	}
-	return App("C11.Build_input", kind, B(in.ReqID), B(in.LogLevel), c11Logs(in.Script.Init.Logs), initFail, hdr,
+	ocol := in.OCol
+	if ocol == "" {
+		ocol = "v"
+	}
+	return App("C11.Build_input", kind, B(in.ReqID), B(in.LogLevel), c11Logs(in.Script.Init.Logs), initFail, hdr, B(ocol),
 		ListOf(in.Script.Turns, c11Turn), col, ListOf(in.Ins, func(v []int64) string { return ListOf(v, Z) }),
 		Nat(in.L), Bool(in.CapEvery), Nat(cmax), ListOf(in.Route, Nat), Bool(in.Compress != ""))
 }
 
-func c11Run(in c11In) CaseOut {
-	tags := []string{in.Kind, fmt.Sprintf("L=%d", in.L), fmt.Sprintf("inst=%d", len(uniqInts(in.Route)))}
-	pipe := c11Pipe(in, &tags)
-	http := c11HTTP(in, &tags)
-	if in.CapEvery {
-		tags = append(tags, "cap-every")
-	}
-	switch {
-	case in.CacheMax == 0:
-		tags = append(tags, "cache-off")
-	case in.CacheMax < 0:
-		tags = append(tags, "cache-default")
-	default:
-		tags = append(tags, "cache-small")
-	}
+func c11CallTags(in c11In, http []c11Resp, tags *[]string) {
+	add := func(t string) { *tags = append(*tags, t) }
+	add(in.Kind)
+	add(fmt.Sprintf("inst=%d", len(uniqInts(in.Route))))
 	if in.Compress != "" {
 		enc := false
 		for _, r := range http {
 			enc = enc || r.Enc != ""
 		}
 		if enc {
-			tags = append(tags, "compressed-"+in.Compress)
+			add("compressed-" + in.Compress)
 		} else {
-			tags = append(tags, "compression-requested-not-applied")
+			add("compression-requested-not-applied")
 		}
 	}
 	if in.Script.Init.Err != nil {
-		tags = append(tags, "init-fail")
+		add("init-fail")
 	}
 	if in.Col != "i64" && in.Col != "" {
-		tags = append(tags, "col-"+in.Col)
+		add("col-" + in.Col)
 	}
-	_, _, producer := c11Method(in.Kind)
+	_, _, producer := c11MethodOf(in)
 	// a dynamic exchange stream whose input is castable to (or refused by) the
 	// RUNTIME input schema but not equal to it: the case the code got wrong over
 	// HTTP before the call token carried the runtime input schema
 	if in.Kind == "dyn_x" && in.Col != "i64" && in.Col != "" && len(in.Ins) > 0 && in.Script.Init.Err == nil {
-		tags = append(tags, "dyn-exchange-runtime-cast")
+		add("dyn-exchange-runtime-cast")
+	}
+	if (in.Kind == "dyn_x" || in.Kind == "dyn_p") && in.OCol != "" && in.OCol != "v" {
+		add("dyn-ocol-" + in.OCol)
 	}
 	for _, t := range in.Script.Turns {
 		if t.Act == "err" || t.Act == "emit2" || t.Act == "noemit" || (!producer && (t.Act == "finish" || t.Act == "emit_finish")) {
-			tags = append(tags, "turn-fail")
+			add("turn-fail")
 			break
 		}
 	}
-	tags = append(tags, fmt.Sprintf("http-requests=%d", min(len(http), 6)))
-	coqObs := App("C11.Build_obs", coqStreams(pipe), ListOf(http, func(r c11Resp) string {
-		return App("C11.Build_hresp", Z(int64(r.Status)), Bool(r.ErrHdr), coqStreams(r.Streams), Bool(r.Tok))
-	}))
-	return CaseOut{Coq: Pair(c11CoqInput(in), coqObs), Tags: tags,
-		Nontrivial: len(in.Script.Turns) > 0 && len(in.Ins) > 0,
-		Obs:        map[string]any{"pipe": pipe, "http": http}}
+	add(fmt.Sprintf("http-requests=%d", min(len(http), 6)))
+}
+
+func c11Run(h c11Hist) CaseOut {
+	if len(h.Calls) == 0 {
+		return CaseOut{Coq: Pair(App("C11H.Build_input", "[]", "[]"), "[]"), Tags: []string{"empty-history"}}
+	}
+	// server settings are shared: normalise every call to Calls[0]'s
+	allProd := true
+	for _, in := range h.Calls {
+		_, _, p := c11MethodOf(in)
+		allProd = allProd && p
+	}
+	for i := range h.Calls {
+		h.Calls[i].L, h.Calls[i].CacheMax = h.Calls[0].L, h.Calls[0].CacheMax
+		h.Calls[i].CapEvery = h.Calls[0].CapEvery && allProd
+	}
+	cfg := h.Calls[0]
+	tags := []string{fmt.Sprintf("calls=%d", min(len(h.Calls), 4)), fmt.Sprintf("L=%d", cfg.L)}
+	if cfg.CapEvery {
+		tags = append(tags, "cap-every")
+	}
+	switch {
+	case cfg.CacheMax == 0:
+		tags = append(tags, "cache-off")
+	case cfg.CacheMax < 0:
+		tags = append(tags, "cache-default")
+	default:
+		tags = append(tags, "cache-small")
+	}
+	http := c11HTTPHist(h, &tags)
+	var pipes [][]RStream
+	nontrivial := false
+	obs := make([]string, len(h.Calls))
+	for i, in := range h.Calls {
+		pipe := c11Pipe(in, &tags)
+		pipes = append(pipes, pipe)
+		c11CallTags(in, http[i], &tags)
+		nontrivial = nontrivial || (len(in.Script.Turns) > 0 && len(in.Ins) > 0)
+		obs[i] = App("C11.Build_obs", coqStreams(pipe), ListOf(http[i], func(r c11Resp) string {
+			return App("C11.Build_hresp", Z(int64(r.Status)), Bool(r.ErrHdr), coqStreams(r.Streams), Bool(r.Tok))
+		}))
+	}
+	if len(h.Calls) > 1 {
+		// do two calls actually overlap: some call takes a step between two steps of another
+		overlap := false
+		seen := map[int]int{}
+		for pos, j := range h.Sched {
+			if last, ok := seen[j]; ok && pos-last > 1 {
+				overlap = true
+			}
+			seen[j] = pos
+		}
+		if overlap {
+			tags = append(tags, "overlapping-calls")
+		} else {
+			tags = append(tags, "sequential-calls")
+		}
+	}
+	coqIn := App("C11H.Build_input", ListOf(h.Calls, c11CoqInput), ListOf(h.Sched, Nat))
+	return CaseOut{Coq: Pair(coqIn, List(obs)), Tags: tags, Nontrivial: nontrivial,
+		Obs: map[string]any{"pipe": pipes, "http": http}}
 }
 
 func uniqInts(xs []int) []int {
@@ -444,7 +581,7 @@ func c11GenTurns(r *rand.Rand, producer bool, n int, failing bool) []TurnScript 
 	return out
 }
 
-func c11Gen(r *rand.Rand, n int, tier string) []c11In {
+func c11GenSingle(r *rand.Rand, n int, tier string) []c11In {
 	var out []c11In
 	h7 := int64(7)
 	emit := func(v int64) TurnScript { return TurnScript{Act: "emit", Value: v} }
@@ -519,7 +656,99 @@ func c11Gen(r *rand.Rand, n int, tier string) []c11In {
 	return out
 }
 
+// c11Gen: histories. Boundary histories of OVERLAPPING calls first, then every
+// single-call case of c11GenSingle as a one-call history, then random histories
+// of 2-3 overlapping calls.
+func c11Gen(r *rand.Rand, n int, tier string) []c11Hist {
+	var out []c11Hist
+	emit := func(v int64) TurnScript { return TurnScript{Act: "emit", Value: v} }
+	four := []TurnScript{emit(1), emit(2), emit(3), emit(4)}
+	mk := func(kind, ocol string, L int, route []int, col string) c11In {
+		in := c11In{Kind: kind, OCol: ocol, ReqID: "r", Script: StreamScript{Turns: four}, L: L, CacheMax: -1, Route: route, Col: col}
+		if _, _, p := c11MethodOf(in); p {
+			in.Ins = make([][]int64, 6)
+		} else {
+			in.Ins = [][]int64{{10}, {20, 1}, {30}}
+		}
+		return in
+	}
+	alt := func(ncalls, steps int) []int {
+		var sc []int
+		for j := 0; j < steps; j++ {
+			sc = append(sc, j%ncalls)
+		}
+		return sc
+	}
+	// open A, open B, continue A, continue B, ... on the instance(s) that served the /init:
+	// A is dynamic (its schemas live only in the call token / cache), B's schema differs
+	for _, ka := range []string{"dyn_p", "dyn_x"} {
+		for _, kb := range []string{"dyn_p", "dyn_x"} {
+			for _, ob := range []string{"bravo", "delta_longer_name", "c", "v"} {
+				for ri, route := range [][]int{{0}, {0, 1}} {
+					col := []string{"i64", "i32"}[ri]
+					out = append(out, c11Hist{Calls: []c11In{mk(ka, "alpha", 1+ri, route, col), mk(kb, ob, 1+ri, route, col)}, Sched: alt(2, 12)})
+				}
+			}
+		}
+	}
+	// other orders and a third call; B static (its /init mints a call token too); small / disabled cache
+	for i, sc := range [][]int{{0, 1, 1, 1, 0, 0, 0}, {0, 1, 2, 0, 1, 2, 0, 1, 2}, {1, 0, 2, 2, 1, 0, 0}, {0, 1, 2, 2, 2, 2, 0}, {2, 1, 0, 0, 1, 2}} {
+		calls := []c11In{mk("dyn_p", "alpha", 1, []int{0}, "i64"), mk([]string{"prod", "exch", "prod_h", "exch_h", "dyn_x"}[i], "bravo", 1, []int{0}, "i64"), mk("dyn_x", "c", 1, []int{0, 0, 1}, "i32")}
+		calls[0].CacheMax = []int{-1, -1, 1, 2, 0}[i]
+		out = append(out, c11Hist{Calls: calls, Sched: sc})
+		out = append(out, c11Hist{Calls: calls[:2], Sched: sc})
+	}
+	// every single-call case
+	nb := len(c11GenSingle(rand.New(rand.NewSource(1)), 0, tier))
+	nSingle := nb + (n-len(out)-nb)/2
+	if nSingle < nb {
+		nSingle = nb
+	}
+	for _, in := range c11GenSingle(r, nSingle, tier) {
+		if (in.Kind == "dyn_p" || in.Kind == "dyn_x") && r.Intn(2) == 0 {
+			in.OCol = c11OCols[r.Intn(len(c11OCols))]
+		}
+		out = append(out, c11Hist{Calls: []c11In{in}})
+	}
+	// random histories of 2-3 overlapping calls
+	for len(out) < n {
+		nc := 2 + r.Intn(2)
+		pool := c11GenSingle(r, nb+nc, tier)[nb:]
+		h := c11Hist{}
+		steps := 0
+		for _, in := range pool {
+			if r.Intn(3) > 0 { // bias towards the methods whose schemas travel in the token
+				in.Kind = []string{"dyn_p", "dyn_x"}[r.Intn(2)]
+				if in.Kind == "dyn_p" {
+					in.Ins = make([][]int64, len(in.Script.Turns)+2)
+					in.Col = "i64"
+				}
+				for i := range in.Script.Turns { // keep the script valid for the new mode
+					if a := in.Script.Turns[i].Act; in.Kind == "dyn_x" && (a == "finish" || a == "emit_finish") {
+						in.Script.Turns[i].Act = "emit"
+					}
+				}
+			}
+			if in.Kind == "dyn_p" || in.Kind == "dyn_x" {
+				in.OCol = c11OCols[r.Intn(len(c11OCols))]
+			}
+			if r.Intn(2) == 0 {
+				in.Route = []int{0}
+			}
+			h.Calls = append(h.Calls, in)
+			steps += 2 + len(in.Ins)
+		}
+		h.Calls[0].L = []int{1, 1, 2, 0, 5}[r.Intn(5)]
+		h.Calls[0].CacheMax = []int{-1, -1, -1, 0, 1, 2}[r.Intn(6)]
+		for k := r.Intn(steps + 1); k > 0; k-- {
+			h.Sched = append(h.Sched, r.Intn(nc))
+		}
+		out = append(out, h)
+	}
+	return out
+}
+
 func init() {
-	Register("C11", "each case runs ONE scripted stream call over the pipe (Server.Serve) and over HTTP (1-3 HttpServer instances sharing a key, hand-rolled client echoing cursor+call tokens); boundary cases first (batch limit L in {0,1,2,5,6} around 5 data batches on prod/prod_h/dyn, cache {0,1,default} x 4 routings, castable (int32) / uncastable (field y) inputs on static and dynamic exchange, 7 init-failure kinds, failing turns with logs, gzip/zstd/private-header compression), then random: 6 method kinds, 0-7 scripted turns (emit with user metadata, logs with extras, failing turn of 6 kinds in 1/3), init logs at mixed levels vs requested level, optional header, L in {0,1,2,5}, response cap every cycle in 1/5 of producers, cache {0,1,2,default}, routing of 1-5 entries over 1-3 instances, compression 3/5 off; producers always get enough ticks to finish; non-trivial = at least one scripted turn and one input; distinct = distinct input JSON",
+	Register("C11", "each case is a HISTORY of 1-3 scripted stream calls opened on the same 1-3 HttpServer instances (shared key, per-instance call-state cache) and advanced by one hand-rolled client in a given interleaving (cursor + call tokens echoed); every call is also run alone over the pipe (Server.Serve) and the two client views are compared per call. Boundary histories first: open A, open B, continue A, ... with A dynamic (producer / exchange, output column alpha) and B dynamic with an output column of the same / another serialized length (bravo, delta_longer_name, c, v), L in {1,2}, one instance and two, int64 / int32 inputs; 3-call orders with a static B and cache {default,1,2,0}. Then every single-call case (L in {0,1,2,5,6} around 5 batches, cache {0,1,default} x 4 routings, castable / uncastable inputs on static and dynamic exchange, 7 init-failure kinds, failing turns, gzip/zstd/private-header compression, then random: 6 method kinds, 0-7 turns with user metadata / logs / a failing turn in 1/3, init logs vs requested level, header, cap every cycle on 1/5 of producers, random dynamic output column). Then random histories of 2-3 overlapping calls biased to dynamic methods with random output columns, random schedule. Producers always get enough ticks to finish; non-trivial = some call has a scripted turn and an input; distinct = distinct input JSON",
 		c11Gen, c11Run)
 }
